@@ -349,6 +349,14 @@ fn all_walks(known: bool, q: usize, limit: usize) -> Vec<(Vec<String>, Vec<Cell>
 }
 
 impl Prop for C20 {
+    fn watchdog_secs(&self, tier: Tier) -> u64 {
+        // (a case forces dozens of schedules on the real binary, each with its own time limit)
+        if tier == Tier::Quick {
+            180
+        } else {
+            600
+        }
+    }
     fn id(&self) -> &'static str {
         "C20"
     }
